@@ -92,12 +92,22 @@ async def _script(loop, case, out: Outcome, with_subs: bool):
     conn = env.connection("A")
     await conn.connect()
     log: list = []
+    sentinel: list = []
     state_fns = []
     if with_subs:
         for spec in case["subs"]:
             fn, ns = make_subscriber(spec, log, "A", loop)
             ns["STATE"] = lambda: _state(env)
             conn.middleware.add_subscriber(fn)
+        # sentinels (never counted by the per-operation oracle): which keys do enqueue signals report?
+        def before_enqueue(key=None):  # noqa: ANN001
+            sentinel.append(("before_enqueue", getattr(key, "id_", None)))
+
+        def after_enqueue(key=None):  # noqa: ANN001
+            sentinel.append(("after_enqueue", getattr(key, "id_", None)))
+
+        conn.middleware.add_subscriber(before_enqueue)
+        conn.middleware.add_subscriber(after_enqueue)
     connB = None
     if case["two_connections"]:
         connB = env.connection("B", share_memory=False) if case["broker"] == "mem" else env.connection("B")
@@ -184,6 +194,9 @@ async def _script(loop, case, out: Outcome, with_subs: bool):
 
             async def act(m: MessageDependency, x: int = 0) -> int:
                 ran.append(x)
+                if x == 4:
+                    # a wrapped operation performed *inside* the (wrapped) actor run is nested: it must emit nothing
+                    await conn.message_broker.enqueue(RoutingKey(topic="act", queue="qm", priority=5, id_="child"), '{"x": 5}', Parameters())
                 return x * 2
 
             router.actor(act, name="act", queue="qm", converter=BasicConverter)
@@ -214,7 +227,7 @@ async def _script(loop, case, out: Outcome, with_subs: bool):
     if consumer is not None:
         await consumer.finish()
     await asyncio.sleep(0.2)
-    return results, _state(env), log, calls
+    return results, _state(env), log, calls, sentinel
 
 
 def _norm(r: Any) -> Any:
@@ -240,8 +253,12 @@ def run(case: dict) -> Outcome:
         out.inconclusive = True
         out.info["watchdog"] = str(e)
         return out
-    r_ref, s_ref, _, _ = ref
-    r_got, s_got, log, calls = got
+    r_ref, s_ref, _, _, _ = ref
+    r_got, s_got, log, calls, sentinel = got
+    nested = [x for x in sentinel if x[1] == "child"]
+    if nested:
+        out.v("nested-signal", f"an enqueue performed inside the actor run (nested in a wrapped operation) emitted {sorted({x[0] for x in nested})}",
+              where="inside-actor")
     # differential: same results / exceptions / final state with and without subscribers
     if r_ref != r_got:
         diff = next(((a, b) for a, b in zip(r_ref, r_got) if a != b), (r_ref[-1:], r_got[-1:]))
